@@ -128,6 +128,7 @@ class Engine:
         s.stop_after = 0; s.stop_distinct = 1
         s.fn_called = set()
         s.const_arrays = {}
+        s.concretisations = {}
         s.crc_memo = {}
         s.on_path_end = None
         import models
@@ -208,8 +209,11 @@ class Engine:
             s.solver.pop()
         return vals
 
-    def concretize(s, st, e, what, limit=None):
-        """resolve symbolic bit-vector e to a concrete value by forking over its feasible values (<= limit)."""
+    def concretize(s, st, e, what, limit=None, representative=False):
+        """resolve symbolic bit-vector e to a concrete value by forking over its feasible values (<= limit).
+        representative=True: when there are more than `limit` feasible values, fork over a fixed set of representatives
+        (the first values the solver proposes plus the unsigned minimum and maximum) instead of giving up; the restriction is
+        recorded (engine.concretisations) and reported in the evidence as outside the claim."""
         eid = e.get_id()
         if eid in st.conc: return st.conc[eid]
         e2 = z3.simplify(e)
@@ -218,7 +222,11 @@ class Engine:
         vals = s.feasible_values(st, e, limit)
         if not vals: raise PathEnd('infeasible')
         if len(vals) > limit:
-            raise EngineLimit('%s has more than %d feasible values' % (what, limit))
+            if not representative:
+                raise EngineLimit('%s has more than %d feasible values' % (what, limit))
+            lo, hi = s.bv_min(st, e), s.bv_max(st, e)
+            vals = sorted(set(vals[:4] + [lo, hi]))
+            s.concretisations[what] = s.concretisations.get(what, 0) + 1
         fr = st.frames[-1]
         for v in vals[1:]:
             st2 = st.fork(); st2.conc[eid] = v
@@ -228,6 +236,26 @@ class Engine:
         st.conc[eid] = vals[0]
         s.add_pc(st, e == BVV(vals[0], e.size())); st.model = None
         return vals[0]
+
+    def bv_min(s, st, e, maximize=False):
+        """unsigned minimum (maximum) of e under pc by binary search"""
+        w = e.size(); lo, hi = 0, (1 << w) - 1
+        s.sync(st)
+        while lo < hi:
+            mid = (lo + hi) // 2
+            s.queries += 1
+            s.solver.push()
+            s.solver.add(z3.UGT(e, BVV(mid, w)) if maximize else z3.ULE(e, BVV(mid, w)))
+            r = s.solver.check(); s.solver.pop()
+            if r == z3.unknown: raise EngineLimit('solver unknown in min/max search')
+            if maximize:
+                if r == z3.sat: lo = mid + 1
+                else: hi = mid
+            else:
+                if r == z3.sat: hi = mid
+                else: lo = mid + 1
+        return lo
+    def bv_max(s, st, e): return s.bv_min(st, e, True)
 
     # ------------------------------------------------------------------ globals / constants
     def init_globals(s, st):
@@ -524,7 +552,8 @@ class Engine:
         if arr is None:
             arr = z3.K(z3.BitVecSort(64), BVV(0, 8))
             for i, c in enumerate(o.data):
-                if c: arr = z3.Store(arr, BVV(i, 64), BVV(c if type(c) is int else 0, 8))
+                if c is None or (type(c) is int and c == 0): continue
+                arr = z3.Store(arr, BVV(i, 64), bv(s.cell_bv(c), 8))
             s.const_arrays[key] = (arr, o.data)
         else:
             arr = arr[0]
@@ -609,9 +638,10 @@ class Engine:
 
     def malloc(s, st, size, zero=False, what='malloc'):
         if type(size) is not int:
-            size = s.concretize(st, size, 'allocation size', max(16, s.FORK_MAX))
+            size = s.concretize(st, size, 'allocation size', max(16, s.FORK_MAX), representative=True)
         st.nallocs += 1
-        if size > (1 << 30):
+        if size > (1 << 24):
+            st.notes.append('allocation of %d bytes refused (model: requests above 16 MiB fail)' % size)
             return NULL
         if st.fault_alloc:
             # allocations are numbered from the moment faults were enabled (the native replay shim counts the same way)
